@@ -1,11 +1,9 @@
 SPECIFICATION Spec
 CONSTANTS
+  Dev <- DevFromDefault
   TF = 3
   MaxLen = 4
   MaxChunk = 2
   Gaps = {0, 1, 2, 4, 7}
-INVARIANT NoError
-INVARIANT C08_MemberEqStandalone
 INVARIANT C08_AtConstruction
-INVARIANT C08_BaseKeepsOHLCV
 CHECK_DEADLOCK FALSE
